@@ -1048,6 +1048,13 @@ def m_swc_take(it, ctx, a, m, f):
     return v
 
 
+@model(r'as Clone>::clone_from$')
+def m_clone_from(it, ctx, a, m, f):
+    # `dst.clone_from(&src)`: dst becomes a copy of src (allocation reuse is not observable)
+    a[0].set(clone_val(deref(a[1])))
+    return []
+
+
 @model(r'^mem::replace::<')
 def m_replace_mem(it, ctx, a, m, f):
     r = a[0]
